@@ -246,7 +246,13 @@ fn execute(plan: &Value, w: &World, cfg: &Cfg, slot: usize) -> Outcome {
     let refused = headers.iter().any(|h| plan::header_refused(h));
     // pre-existing output
     std::fs::create_dir_all(dir.join("sub")).unwrap();
-    let sink_full = plan["sink"] == "dev-full";
+    // (only if /dev/full really is the character device: a change under test that replaces files
+    // by rename could have clobbered it in an earlier run)
+    let dev_full_ok = {
+        use std::os::unix::fs::FileTypeExt;
+        std::fs::metadata("/dev/full").map(|m| m.file_type().is_char_device()).unwrap_or(false)
+    };
+    let sink_full = plan["sink"] == "dev-full" && dev_full_ok;
     let oname = plan["output_name"].as_str().unwrap_or("out.json");
     let (out_path, out_arg) = match plan["output_form"].as_str() {
         _ if sink_full => (PathBuf::from("/dev/full"), "/dev/full".to_string()),
